@@ -52,10 +52,10 @@ PROPS = {
                 title="re-entrant destructors"),
     "C11": dict(streams=["panic"], fields=["D", "P", "E", "F", "heapcounts", "roots"], oracles=["O1", "O2", "O5", "O6"],
                 contract=True, title="panicking destructor"),
-    "C12": dict(streams=["api", "corpus"], fields=["heap", "R", "E", "D", "F", "vals", "roots", "raws", "C", "W"],
-                oracles=["O1", "O2", "O4", "O8"], contract=True, title="consuming APIs on adopted objects"),
+    "C12": dict(streams=["api", "raw", "corpus"], fields=["heap", "R", "E", "D", "F", "vals", "roots", "raws", "C", "W"],
+                oracles=["O1", "O2", "O4", "O8"], contract=False, title="consuming APIs on adopted objects"),
     "C13": dict(streams=["elide", "corpus"], fields=["D", "E", "heap", "roots"], oracles=["O1", "O2"], contract=False,
-                title="elided unadopt", known="D4"),
+                title="elided unadopt", known="D4", o1_free=True),
     "C14": dict(streams=["contract", "raw", "noadopt", "api"], fields=["T"], oracles=["O14"], contract=False,
                 title="pay-as-you-go"),
     "C15": dict(streams=["contract", "exh2"], fields=["T"], oracles=[], contract=False, title="iterative and linear",
@@ -323,7 +323,8 @@ def judge(pid, cfg, runs):
             r.diffs = d
         if d:
             diff_runs.append(r)
-        o = engine.oracle_fails(r, cfg["oracles"], require_contract=cfg["contract"]) if cfg["oracles"] else []
+        o = engine.oracle_fails(r, cfg["oracles"], require_contract=cfg["contract"],
+                                o1_needs_contract=not cfg.get("o1_free")) if cfg["oracles"] else []
         # library panics / canary trips / double frees are oracle failures of C02-type channels
         if not o and "E" in fields:
             for i, st in enumerate(r.impl["steps"]):
